@@ -520,7 +520,9 @@ func (p *Part) Fail(class, detail string, custom interface{}) {
 	p.fails++
 	if p.r.replay != nil {
 		p.replayFails++
-		fmt.Printf("replay: FAIL class=%q %s\n", class, detail)
+		if p.replayFails <= 10 {
+			fmt.Printf("replay: FAIL class=%q %s\n", class, detail)
+		}
 		return
 	}
 	if p.filed == nil {
